@@ -501,6 +501,16 @@ def decorate_globals(rng, case, p=0.6):
     return case
 
 
+APPEND_SPELLINGS = ["a", "r+"]          # docstring of cfdm.write: 'r+' is an alias for 'a'
+BAD_SPELLINGS = ["A", "r", "append", "a+", "w+", "R+", "", "x", " a", "ra"]
+
+
+def spell_modes(rng, case):
+    """Every append call is made with one of the accepted spellings of append mode."""
+    case["a_mode"] = [rng.choice(APPEND_SPELLINGS) for _ in case["appends"]]
+    return case
+
+
 def gen_refusal_case(rng, cid):
     """featureType / groups requests (documented as unsupported or not)."""
     g0 = gen_grid(rng)
@@ -588,12 +598,81 @@ def gen_example_cases(rng, n, thorough):
     return out
 
 
+def gen_domain_cases(rng, n):
+    """Domain constructs: appended to domain-only and to mixed datasets, with the netCDF name of a domain
+    variable of the dataset (default name) or another one; fields appended to domain-only datasets."""
+    out = []
+    for k in range(n):
+        g0 = gen_grid(rng)
+        g0["vert"] = None
+        base = field_spec(rng, g0, gen_fprops(rng, 0.1), "q", 20)
+        dom0 = dict(copy.deepcopy(base), domain=rng.choice(["default", "default", "dom0"]))
+        kind = k % 5
+        if kind in (0, 1):
+            s0 = [dom0]                                              # domain-only dataset
+        elif kind == 2:
+            s0 = [base, dom0]                                        # mixed
+        elif kind == 3:
+            s0 = [base]                                              # fields only, a domain arrives
+        else:
+            s0 = [dict({"ex": rng.choice([0, 1, 2])}, domain="default")]
+        steps = []
+        for j in range(rng.choice([1, 1, 2])):
+            gj = mutate_grid(rng, g0, rng.choice([0, 0, 1, 2]))
+            spec = field_spec(rng, gj, gen_fprops(rng, 0.1), rng.choice(["q", "new"]), 30 + j)
+            r = rng.random()
+            if kind == 4:
+                spec = dict({"ex": s0[0]["ex"]}, domain=rng.choice(["default", "dom2"]))
+            elif r < 0.7:
+                spec = dict(spec, domain=rng.choice(["default", "default", "dom0", "dom2"]))
+            steps.append([spec])
+        out.append(spell_modes(rng, {"id": f"dom{k}", "fam": "domain", "s0": s0, "appends": steps}))
+    return out
+
+
+def gen_external_cases(rng, n):
+    """Datasets with an external_variables attribute: an internal cell measure that bears the name of the
+    external variable, the same external variable again, other names."""
+    out = []
+    for k in range(n):
+        name = rng.choice(["areacella", "cell_area"])
+        s0 = [{"ex": 1, "mods": [["external_cm", name]]}]
+        if k % 3 == 2:
+            s0.append({"ex": 0})
+        kind = k % 4
+        if kind == 0:
+            app = {"ex": 0, "mods": [["ncvar", "q_new"], ["add_cm", name]]}            # the name of the external variable
+        elif kind == 1:
+            app = {"ex": 2, "mods": [["ncvar", "q_new"], ["add_cm", name, "volume"]]}
+        elif kind == 2:
+            app = {"ex": 1, "mods": [["ncvar", "ta2"], ["external_cm", name], ["scale", 2.0, 0.0]]}   # same external variable
+        else:
+            app = {"ex": 0, "mods": [["ncvar", "q_new"], ["add_cm", "another_area"]]}
+        out.append(spell_modes(rng, {"id": f"ext{k}", "fam": "external", "s0": s0, "external": True, "appends": [[app]]}))
+    return out
+
+
+def gen_dsg_cases(rng, n):
+    """Ragged arrays appended to a dataset holding one with an equal count / index variable: instance-level
+    and / or element-level coordinates equal or moved."""
+    out = []
+    shifts = [[], ["instance"], ["element"], ["instance", "element"]]
+    for k in range(n):
+        method = ["contiguous", "indexed"][k % 2]
+        sh = shifts[(k // 2) % 4]
+        app = {"ex": 3, "mods": [["ncvar", "p2"], ["prop", "standard_name", "rainfall_flux"]],
+               "dsg": {"method": method if k % 5 != 4 else rng.choice(["contiguous", "indexed"]), "shift": sh}}
+        out.append(spell_modes(rng, {"id": f"dsg{k}", "fam": "dsg", "s0": [{"ex": 3, "dsg": {"method": method, "shift": []}}],
+                                     "appends": [[app]]}))
+    return out
+
+
 def gen_malformed(rng, n):
     out = []
     for k in range(n):
         g0 = gen_grid(rng)
         s0 = [field_spec(rng, g0, gen_fprops(rng), "q", 20)]
-        kind = k % 7
+        kind = k % 9
         step = [field_spec(rng, mutate_grid(rng, g0, 1), gen_fprops(rng), "q", 31)]
         case = {"id": f"mal{k}", "fam": "malformed", "s0": s0, "appends": [step]}
         if kind == 0:
@@ -604,6 +683,10 @@ def gen_malformed(rng, n):
             step[0]["syn"]["props"]["_FillValue"] = "not a number"
         elif kind == 3:
             step[0]["syn"]["ncvar"] = "bad name/with slash"
+        elif kind in (7, 8):
+            # a spelling of the mode that is not accepted: rejected, file untouched
+            case["w_kw"] = {"Conventions": ["ACDD-1.3"]}
+            case["a_mode"] = [rng.choice(BAD_SPELLINGS)]
         else:
             # write options that are rejected - after the file has been opened for appending (a Conventions
             # name with a comma) or before (Conventions as a variable attribute or a file descriptor)
@@ -630,6 +713,21 @@ CORPUS = [
     # commit b49d869: fields of the file itself, their data unread, appended to it
     {"id": "corpus-append-own-field", "fam": "corpus", "s0": [{"ex": 0}, {"ex": 1}],
      "appends": [[{"self": 0, "mods": [["ncvar", "again"]]}], [{"self": 1, "mods": [["ncvar", "ta2"], ["scale", 2.0, 0.0]]}]]},
+    # seeded C17-s6: the documented alias 'r+' (file with non-default global attributes; a refusal; a sharing append)
+    {"id": "corpus-alias-globals", "fam": "corpus", "s0": [{"ex": 0}], "a_mode": ["r+", "r+"],
+     "w_kw": {"Conventions": ["ACDD-1.3"], "file_descriptors": {"comment": "a file comment"}},
+     "appends": [[{"ex": 2, "mods": [["prop", "comment", "another comment"]]}], [{"ex": 0, "mods": [["ncvar", "q4"], ["scale", 2.0, 0.0]]}]]},
+    {"id": "corpus-alias-refusal", "fam": "corpus", "s0": [{"ex": 0}], "a_mode": ["r+", "r+"],
+     "appends": [[{"ex": 3}], [{"ex": 0, "mods": [["groups", ["forecast"]], ["ncvar", "q5"]]}]]},
+    # third pass, pristine-tree observations: domain appended to a domain-only dataset under the same name;
+    # an internal cell measure bearing the name of the dataset's external variable
+    {"id": "corpus-domain-only", "fam": "corpus", "s0": [{"ex": 0, "domain": "default"}],
+     "appends": [[{"ex": 0, "domain": "default"}], [{"ex": 0, "mods": [["ncvar", "q6"]]}]]},
+    {"id": "corpus-external-name", "fam": "corpus", "s0": [{"ex": 1, "mods": [["external_cm", "areacella"]]}],
+     "external": True, "appends": [[{"ex": 0, "mods": [["ncvar", "q_new"], ["add_cm", "areacella"]]}]]},
+    # C17-fix3-4: a field appended to a domain-only dataset whose auxiliary coordinate has bounds (the dry run
+    # renamed the bounds dimension 'bounds2_1')
+    {"id": "corpus-domain-file-field-appended", "fam": "corpus", "s0": [{"syn": {"ncvar": "q", "props": {"units": "1"}, "v": 20, "axes": [{"size": 3, "ncdim": "d_lon", "data": True, "unlim": False}, {"size": 3, "ncdim": None, "data": True, "unlim": False}, {"size": 2, "ncdim": "lat", "data": True, "unlim": False}, {"size": 1, "ncdim": None, "data": False}], "dim": [{"axis": 0, "ncvar": "lon", "props": {"standard_name": "longitude", "units": "degrees_east"}, "v": 1}, {"axis": 1, "ncvar": "plainv", "props": {"long_name": "an axis"}, "v": 2, "bnd": {"v": 0, "ncvar": None, "ncdim": None}}, {"axis": 2, "ncvar": None, "props": {"standard_name": "latitude", "units": "degrees_north"}, "v": 1}, {"axis": 3, "ncvar": None, "props": {"standard_name": "time", "units": "days since 2000-01-01"}, "v": 0}], "aux": [{"axes": [0], "ncvar": None, "props": {"long_name": "other aux", "units": "1"}, "v": 3, "bnd": {"v": 0}}, {"axes": [0], "ncvar": None, "props": {"standard_name": "altitude", "units": "m"}, "v": 4}], "msr": [], "vert": None}, "domain": "default"}], "appends": [[{"syn": {"ncvar": "new", "props": {"units": "K", "standard_name": "air_temperature", "project": "research", "long_name": "a field"}, "v": 30, "axes": [{"size": 3, "ncdim": "d_lon", "data": True, "unlim": False}, {"size": 3, "ncdim": "d_plain", "data": True, "unlim": False}, {"size": 2, "ncdim": "lat", "data": True, "unlim": False}, {"size": 1, "ncdim": None, "data": False}], "dim": [{"axis": 0, "ncvar": "lonw", "props": {"standard_name": "longitude", "units": "degrees_east"}, "v": 1, "bnd": {"v": 1, "ncvar": "lon_bnds", "ncdim": None}}, {"axis": 1, "ncvar": "plainv", "props": {"long_name": "an axis"}, "v": 2, "bnd": {"v": 1, "ncvar": None, "ncdim": None}}, {"axis": 2, "ncvar": "latw", "props": {"standard_name": "latitude", "units": "degrees_north"}, "v": 1}, {"axis": 3, "ncvar": None, "props": {"standard_name": "time", "units": "days since 2000-01-01"}, "v": 1}], "aux": [{"axes": [0], "ncvar": None, "props": {"long_name": "other aux", "units": "1"}, "v": 4, "bnd": {"v": 0}}, {"axes": [0], "ncvar": None, "props": {"standard_name": "altitude", "units": "m"}, "v": 4}], "msr": [], "vert": None}}], [{"syn": {"ncvar": "q", "props": {"units": "m s-1", "standard_name": "eastward_wind", "long_name": "another field", "comment": "c1"}, "v": 31, "axes": [{"size": 3, "ncdim": None, "data": True, "unlim": False}, {"size": 3, "ncdim": None, "data": True, "unlim": False}, {"size": 2, "ncdim": "lat", "data": True, "unlim": False}, {"size": 1, "ncdim": None, "data": False}], "dim": [{"axis": 0, "ncvar": "lon", "props": {"standard_name": "longitude", "units": "degrees_east"}, "v": 1}, {"axis": 1, "ncvar": "plainv", "props": {"long_name": "an axis"}, "v": 2, "bnd": {"v": 0, "ncvar": None, "ncdim": None}}, {"axis": 2, "ncvar": "lat", "props": {"standard_name": "latitude", "units": "degrees_north"}, "v": 1, "bnd": {"v": 1, "ncvar": None, "ncdim": "nv"}}, {"axis": 3, "ncvar": None, "props": {"standard_name": "time", "units": "days since 2000-01-01"}, "v": 0}], "aux": [{"axes": [0], "ncvar": None, "props": {"long_name": "other aux", "units": "1"}, "v": 3, "bnd": {"v": 0}}, {"axes": [0], "ncvar": None, "props": {"standard_name": "altitude", "units": "m"}, "v": 4}], "msr": [], "vert": None}, "domain": "dom0"}]], "a_mode": ["r+", "r+"]},
     # seeded C17-s1: one request holding the file's featureType and another one
     {"id": "corpus-mixed-featureType", "fam": "corpus", "s0": [{"ex": 3}],
      "appends": [[{"ex": 3, "mods": [["ncvar", "rf"]]}, {"ex": 4}], [{"ex": 4}, {"ex": 3, "mods": [["ncvar", "rf"]]}]]},
@@ -714,6 +812,22 @@ def owner_shared(sk, old):
     return False
 
 
+def has_domain_variable(view):
+    return any("dimensions" in v["attrs"] for v in view["vars"])
+
+
+def used_as_metadata(view):
+    """Names that some variable refers to, and coordinate variables."""
+    names = set()
+    for v in view["vars"]:
+        for k, x in v["attrs"].items():
+            if k in REF_ATTRS or k in UNMODELLED_REF_ATTRS or k == "dimensions":
+                names.update(t for t in str(x).split() if not t.endswith(":"))
+        if v["dims"] == [v["name"]]:
+            names.add(v["name"])
+    return names
+
+
 def signature(case, step, what):
     s1 = step.get("s1", [])
     if what == "new-field":
@@ -728,6 +842,9 @@ def signature(case, step, what):
             return "new-field-differs:formula-terms-on-shared-coordinate"
         if sk.get("anc") or sk.get("refs") or "datum" in sk.get("oom", []):
             return "new-field-differs:formula-terms"
+        if "compressed" in sk.get("oom", []) and any("compressed" in o.get("oom", []) for o in step["r"] + others):
+            # C06's open finding reached through an append: count / index variables are shared by value
+            return "new-field-differs:ragged-count-or-index-variable-shared-across-instance-dimensions"
         if "compressed" in sk.get("oom", []) or "featureType" in sk.get("props", {}):
             return "new-field-differs:featureType-or-dsg"
         sizes = [d[1] for d in step["before"]["dims"]]
@@ -783,13 +900,32 @@ def oracle(chk, case, res, crashed, stats):
                 bad.append(("file-unreadable-after-append", f"cfdm.read fails afterwards: {orc['read_after_failed']}"))
             if orc.get("old_missing"):
                 sig = "old-field-lost"
-                if (any("datum" in s.get("oom", []) for s in step["r"])
+                lost = [n for n in orc.get("old_missing_ncvars") or [] if n]
+                if (lost and len(lost) == len(orc["old_missing"]) and has_domain_variable(step["before"])
+                        and all(n in used_as_metadata(step["after"]) for n in lost)):
+                    # a coordinate-like variable of a domain, read as a field for want of a data variable
+                    # using it, is now used by an appended field
+                    sig = "old-field-lost:variable-of-a-domain-read-as-field"
+                elif "external_variables" in step["before"]["gatts"]:
+                    sig = "old-field-lost:external-variable"
+                elif (any("datum" in s.get("oom", []) for s in step["r"])
                         and any({"datum", "grid-mapping"} & set(s.get("oom", [])) for s in step["s1"])):
                     sig = "old-field-lost:vertical-datum-next-to-another-grid-mapping"
                 bad.append((sig, f"fields readable before are not read (equal) afterwards: {orc['old_missing']}"))
         want = wanted_refusal(step)
         malformed = case.get("fam") == "malformed"
-        if out.startswith("refused"):
+        spelling = step.get("mode", "a")
+        if out.startswith("badmode") or spelling not in APPEND_SPELLINGS:
+            # the spelling of the mode: accepted ones behave alike (that is the rest of this oracle, run for
+            # 'a' and 'r+' alike), any other is rejected before the file is looked at
+            if out.startswith("badmode"):
+                if not step.get("sha_same"):
+                    bad.append(("mode-rejected-but-file-modified", f"{out} for mode {spelling!r}: the file changed"))
+                if spelling in APPEND_SPELLINGS:
+                    bad.append(("accepted-mode-rejected", f"mode {spelling!r} is documented but was rejected: {step.get('message')}"))
+            else:
+                bad.append(("unknown-mode-accepted", f"mode {spelling!r} is not a documented spelling but the call went on: {out}"))
+        elif out.startswith("refused"):
             if not step.get("sha_same"):
                 bad.append(("refused-but-file-modified", f"{out}: the file changed"))
             if want is None and not malformed:
@@ -807,7 +943,9 @@ def oracle(chk, case, res, crashed, stats):
             elif orc.get("extra_fields") and not orc.get("old_missing"):
                 bad.append(("extra-fields", f"extra fields after the append: {orc['extra_fields']}"))
         elif out.startswith("raised") and not malformed:
-            bad.append(("append-raises:" + out.split(":")[1], f"append raised {out}: {step.get('message')}"))
+            dom = ":domain" if (has_domain_variable(step["before"])
+                                or any(x.get("oom") == ["domain"] for x in step["s1"])) else ""
+            bad.append(("append-raises:" + out.split(":")[1] + dom, f"append raised {out}: {step.get('message')}"))
         for sig, what in bad:
             chk.fail("property", sig, what, {"input": inp, "observed": {"outcome": out, "oracle": orc}})
             failed_steps.add(k)
@@ -827,7 +965,13 @@ def run(chk, model_ok):
     for i in range(400 if thorough else 40):
         cases.append(gen_refusal_case(rng, f"r{i}"))
     cases += gen_example_cases(rng, 120 if thorough else 22, thorough)
-    cases += gen_malformed(rng, 42 if thorough else 14)
+    cases += gen_malformed(rng, 54 if thorough else 18)
+    for c in cases:
+        if c["fam"] not in ("corpus", "malformed") and "a_mode" not in c:
+            spell_modes(rng, c)
+    cases += gen_domain_cases(rng, 60 if thorough else 15)
+    cases += gen_external_cases(rng, 24 if thorough else 8)
+    cases += gen_dsg_cases(rng, 32 if thorough else 8)
     for c in cases:
         if "fmt_append" in c:
             c["fmt"] = "NETCDF4"
@@ -856,7 +1000,9 @@ def run(chk, model_ok):
         for step in res.get("steps", []):
             if "after" not in step or step.get("after") is None or "r" not in step:
                 continue
-            oc = {"ok": 0}.get(step["outcome"], 1 if step["outcome"].startswith("refused") else 2)
+            oc = {"ok": 0}.get(step["outcome"], 1 if step["outcome"].startswith("refused") else
+                               3 if step["outcome"].startswith("badmode") else 2)
+            stats["mode:" + step.get("mode", "a")] += 1
             why = in_model(step)
             nc4 = case.get("fmt", "NETCDF4") == "NETCDF4"
             if step["s1"] and all("axes" in s for s in step["r"] + step["s1"]):
@@ -873,7 +1019,7 @@ def run(chk, model_ok):
                 stats["steps-outside-model"] += 1
                 continue
             stats["steps-in-model"] += 1
-            lits.append(f"({gbool(nc4)}, {g_opts(step.get('opts'))}, {g_file(step['before'])}, {glist(step['r'], g_field)}, "
+            lits.append(f"({gstr(step.get('mode', 'a'))}, {gbool(nc4)}, {g_opts(step.get('opts'))}, {g_file(step['before'])}, {glist(step['r'], g_field)}, "
                         f"{glist(step['s1'], g_field)}, {g_file(step['after'])}, {gnat(oc)})")
             lit_src.append((case, step["k"], step["k"] in failed))
             cov_lits.append(f"({g_file(step['before'])}, {glist(step['r'], g_field)})")
